@@ -787,15 +787,24 @@ struct UfoCase {
     kerning: u8,    // 0,1,2
     features: bool,
     lib: u8, // 0 none, 1 skipExport (a non-export glyph), 2 glyphOrder, 3 categories + postscriptNames + a private key
+    /// thorough only: a composite glyph with anchors / extra fontinfo entries
+    composite: bool,
+    info: bool,
 }
 
-fn ufo_cases() -> Vec<UfoCase> {
+fn ufo_cases(tier: Tier) -> Vec<UfoCase> {
     let mut v = vec![];
+    let extra: &[(bool, bool)] = match tier {
+        Tier::Quick => &[(false, false)],
+        Tier::Thorough => &[(false, false), (true, false), (false, true), (true, true)],
+    };
     for nglyphs in 1..=3 {
         for kerning in 0..3u8 {
             for features in [false, true] {
                 for lib in 0..4u8 {
-                    v.push(UfoCase { nglyphs, kerning, features, lib });
+                    for (composite, info) in extra {
+                        v.push(UfoCase { nglyphs, kerning, features, lib, composite: *composite, info: *info });
+                    }
                 }
             }
         }
@@ -807,7 +816,7 @@ fn ufo_design(c: &UfoCase) -> Design {
     // norad cannot load a designspace whose sources have no <dimension>, so (as the repo's static
     // fixtures do) the design has one point axis; the lone UFO is the same master written alone
     let mut d = Design::skeleton(
-        &format!("U{}{}{}{}", c.nglyphs, c.kerning, c.features as u8, c.lib),
+        &format!("U{}{}{}{}{}{}", c.nglyphs, c.kerning, c.features as u8, c.lib, c.composite as u8, c.info as u8),
         vec![Axis::new("wght", "Weight", 400.0, 400.0, 400.0)],
         vec![vec![400.0]],
     );
@@ -830,6 +839,21 @@ fn ufo_design(c: &UfoCase) -> Design {
     if c.features {
         let tgt = names[c.nglyphs - 1];
         d.features_fea = Some(format!("languagesystem DFLT dflt;\nfeature ss01 {{ sub A by {tgt}; }} ss01;\n"));
+    }
+    if c.composite {
+        d.glyph_mut("A").unwrap().layers.get_mut(&0).unwrap().anchors.push(Anchor { name: "top".into(), x: 160.0, y: 600.0 });
+        let mut g = Glyph::new("Agrave", &[0xC0]);
+        g.layers.insert(
+            0,
+            Layer { advance: 500.0, components: vec![Component::at("A", 0.0, 0.0), Component::at("A", 20.0, 30.0)], ..Default::default() },
+        );
+        d.glyphs.push(g);
+    }
+    if c.info {
+        d.masters[0].info.extra.push(("openTypeOS2TypoLineGap".into(), plist::Plist::Int(90)));
+        d.masters[0].info.extra.push(("openTypeNameDesigner".into(), plist::Plist::s("D. Signer")));
+        d.masters[0].info.extra.push(("versionMajor".into(), plist::Plist::Int(2)));
+        d.masters[0].info.extra.push(("versionMinor".into(), plist::Plist::Int(5)));
     }
     match c.lib {
         1 => {
@@ -893,6 +917,7 @@ struct Stats {
     nondet: Vec<String>,
     fonts: BTreeSet<u64>,
     refused_sources: BTreeSet<String>,
+    samples: Vec<String>,
     cli_skipped_for_time: u64,
     rejected: BTreeMap<String, u64>,
     rejected_samples: Vec<String>,
@@ -1036,6 +1061,13 @@ fn route_case(ctx: &Ctx, s: &Source, st: &Mutex<Stats>, cl: &Mutex<Classes>) {
             if let Out::Font(b) = o {
                 g.fonts.insert(vcore::hash64(b));
             }
+        }
+        if g.samples.len() < 8 && (s.pkg.is_some() || g.samples.len() < 4) {
+            g.samples.push(format!(
+                "{}: {}",
+                s.label,
+                outs.iter().map(|(r, o)| format!("{r} -> {}", o.brief())).collect::<Vec<_>>().join("; ")
+            ));
         }
     }
     // pairs: library routes among themselves, CLI routes among themselves, CLI vs library
@@ -1419,6 +1451,44 @@ fn generated_sources(t: &Toggles, root: &Path) -> Vec<Source> {
     v
 }
 
+/// The oracle must see a difference where there is one: (a) a package whose `order.plist` is removed
+/// (glyphs then load in name order, not file order), (b) a re-print that reverses the `glyphs` list.
+fn selftest() -> Value {
+    let base = Toggles {
+        axes: 1, composite: false, anchors: false, kerning: 1, intermediate: false, features: false,
+        nonexport: false, order: false, curves: false, axis_map: false, instances: false, odd_names: false,
+    };
+    let d = gen_design(&base);
+    let sc = Scratch::new("c20self");
+    let f = d.write_glyphs3(sc.path()).unwrap();
+    let p = d.write_glyphspackage(sc.path()).unwrap();
+    let whole = lib_path(&f);
+    if lib_path(&p) != whole {
+        vcore::machinery_error("self-test: file and package of the base design differ");
+    }
+    std::fs::remove_file(p.join("order.plist")).unwrap();
+    let a = match (&whole, &lib_path(&p)) {
+        (Out::Font(x), Out::Font(y)) if x != y => table_diff(x, y).1,
+        (x, y) => vcore::machinery_error(&format!("self-test (a) saw no difference: {} / {}", x.brief(), y.brief())),
+    };
+    let text = d.to_glyphs3();
+    let mut tree = parse_plist(&text).unwrap_or_else(|e| vcore::machinery_error(&format!("self-test parse: {e}")));
+    if let Node::Dict(top) = &mut tree {
+        for (k, v) in top.iter_mut() {
+            if *k == Tok::Bare("glyphs".into()) {
+                if let Node::Array { items, .. } = v {
+                    items.reverse();
+                }
+            }
+        }
+    }
+    let b = match (&lib_mem(&text), &lib_mem(&reprint(&tree, &[]))) {
+        (Out::Font(x), Out::Font(y)) if x != y => table_diff(x, y).1,
+        (x, y) => vcore::machinery_error(&format!("self-test (b) saw no difference: {} / {}", x.brief(), y.brief())),
+    };
+    json!({"package_without_order_plist": a, "glyph_list_reversed": b})
+}
+
 fn versions() -> Ctx {
     let mut cmd = vcore::fontc_cmd(&vcore::fontc_bin(), None);
     cmd.arg("--version");
@@ -1560,6 +1630,7 @@ fn main() {
     }
     let ctx = ctx;
     let threads = vcore::ncores();
+    let self_test = selftest();
     let st = Mutex::new(Stats::default());
     let cl = Mutex::new(Classes::default());
 
@@ -1592,10 +1663,10 @@ fn main() {
     let after_reformat = rep.elapsed_s();
 
     // ---- 3. UFO routes
-    let ucases = ufo_cases();
+    let ucases = ufo_cases(args.tier);
     let info = Mutex::new((0u64, 0u64));
     vcore::par_for(ucases.len(), threads, |i| {
-        ufo_case(&ucases[i], i % 6 == 0, &ctx, &st, &cl, &info);
+        ufo_case(&ucases[i], i % 5 == 0, &ctx, &st, &cl, &info);
     });
 
     // ---- writer validation summary (non-vacuity of the generated sources: the Glyphs form and the
@@ -1637,8 +1708,13 @@ fn main() {
     rep.set("not_repeatable_sources", json!(g.nondet));
     rep.set("version_stamp", json!({"cli": ctx.stamp_cli, "library": ctx.stamp_lib}));
     rep.set("writer_validation", json!(val));
+    rep.set("selftest_differences_seen", self_test);
     rep.set("timing_s", json!({"routes": after_routes, "reformat": after_reformat - after_routes}));
-    rep.set("samples", json!(sources.iter().step_by((sources.len() / 6).max(1)).map(|s| s.label.clone()).collect::<Vec<_>>()));
+    rep.set("samples", json!(g.samples));
+    rep.set(
+        "sources_with_include_kept_off_the_memory_route",
+        json!(sources.iter().filter(|s| s.has_include).map(|s| s.label.clone()).collect::<Vec<_>>()),
+    );
     rep.set("cli_route_skipped_for_time", g.cli_skipped_for_time);
     rep.set("exhaustive", g.cli_skipped_for_time == 0);
     if g.cli_skipped_for_time > 0 {
